@@ -377,6 +377,56 @@ static void conv_case(uint64_t sizea, uint64_t sizeb, int fam, unsigned rep) {
   case_end(sizea >= 1 && sizeb >= 1);
 }
 
+// *_simple convenience functions: the same definitions hold, whatever was called first for a dimension
+static void simple_case(uint64_t m, unsigned rep) {
+  if (!case_begin("fftvec_mul/addmul/layout_simple|first-use-order", "m=%" PRIu64 " rep=%u", m, rep)) return;
+  rng_t* r = crng();
+  double* a = malloc(2 * m * 8);
+  double* b = malloc(2 * m * 8);
+  double* out = malloc(2 * m * 8);
+  double* r0 = malloc(2 * m * 8);
+  // the first-use order of the operations alternates with the dimension (the caches are per dimension)
+  const int addmul_first = (int)(ilog2(m) & 1) ^ (int)(rep & 1);
+  for (int step = 0; step < 4; step++) {
+    for (int ly = 0; ly < 3; ly++) {
+      if (ly == LY_REIM4 && m < 4) continue;
+      const int addmul = (step & 1) ^ addmul_first;
+      fill(r, V_RANDOM, a, 2 * m);
+      fill(r, V_RANDOM, b, 2 * m);
+      fill(r, V_RANDOM, out, 2 * m);
+      memcpy(r0, out, 2 * m * 8);
+      if (ly == LY_REIM) addmul ? reim_fftvec_addmul_simple((uint32_t)m, out, a, b) : reim_fftvec_mul_simple((uint32_t)m, out, a, b);
+      else if (ly == LY_REIM4) addmul ? reim4_fftvec_addmul_simple((uint32_t)m, out, a, b) : reim4_fftvec_mul_simple((uint32_t)m, out, a, b);
+      else addmul ? cplx_fftvec_addmul_simple((uint32_t)m, out, a, b) : cplx_fftvec_mul_simple((uint32_t)m, out, a, b);
+      for (uint64_t i = 0; i < m; i++) {
+        uint64_t ire, iim;
+        idx(ly, m, i, &ire, &iim);
+        long double er = (long double)a[ire] * b[ire] - (long double)a[iim] * b[iim], ei = (long double)a[ire] * b[iim] + (long double)a[iim] * b[ire];
+        if (addmul) { er += r0[ire]; ei += r0[iim]; }
+        if (fabsl(out[ire] - er) > 1e-12L || fabsl(out[iim] - ei) > 1e-12L) {
+          static const char* ln[] = {"reim", "reim4", "cplx"};
+          viol("oracle", "%s_fftvec_%s_simple(m=%" PRIu64 ") (call %d of the dimension, %s first): complex %" PRIu64 " = (%.17g,%.17g), definition gives (%.17Lg,%.17Lg)", ln[ly], addmul ? "addmul" : "mul", m, step, addmul_first ? "addmul" : "mul", i, out[ire], out[iim], er, ei);
+          break;
+        }
+      }
+      cnt("simple_api_calls", 1);
+    }
+    if (m >= 4) {
+      // layout conversion round trip through the convenience functions
+      for (uint64_t i = 0; i < 2 * m; i++) a[i] = (double)(i + 1);
+      memset(out, 0x5A, 2 * m * 8);
+      memset(b, 0x5B, 2 * m * 8);
+      if (step & 1) { reim4_from_cplx_simple((uint32_t)m, out, a); reim4_to_cplx_simple((uint32_t)m, b, out); }
+      else { reim4_from_cplx_simple((uint32_t)m, out, a); reim4_to_cplx_simple((uint32_t)m, b, out); }
+      if (memcmp(a, b, 2 * m * 8)) viol("oracle", "reim4_from_cplx_simple / reim4_to_cplx_simple round trip is not the identity (m=%" PRIu64 ")", m);
+      cnt("simple_api_calls", 2);
+    }
+  }
+  sample("mul/addmul simple functions of three layouts in alternating first-use order + layout round trip");
+  free(a); free(b); free(out); free(r0);
+  case_end(1);
+}
+
 void run_C17(void) {
   const int th = G.thorough;
   unsigned ctr = 0;
@@ -413,6 +463,8 @@ void run_C17(void) {
             }
           }
   }
+  for (unsigned k = 0; k <= 16; k++)
+    for (unsigned rep = 0; rep < (th ? 4u : 2u); rep++) simple_case(1ull << k, rep);
   // m = 1, 2 for the layouts that exist below 4 (reim and cplx)
   for (uint64_t m = 1; m <= 2; m++)
     for (int ly = 0; ly < 3; ly += 2)
